@@ -51,7 +51,8 @@ func genC10(p *Plan, r *RNG) {
 		// that was read before may be lost, the frames still come out whole and in order
 		p.Flavor = "stunconn+read-errors"
 		for k := r.Range(1, 4); k > 0; k-- {
-			p.IOFaults = append(p.IOFaults, IOFault{M: Match{Sock: "reader", Op: "Read", Nth: r.Range(2, 40)}, Do: "error"})
+			// (half of them come with the bytes that were there: n > 0 and an error in one Read)
+			p.IOFaults = append(p.IOFaults, IOFault{M: Match{Sock: "reader", Op: "Read", Nth: r.Range(2, 40)}, Do: r.Pick([]string{"error", "error-with-data"})})
 		}
 	}
 	n := r.Range(1, 8)
